@@ -109,7 +109,8 @@ theorem fastq_names (n : List Char) (hn : ∀ e' ∈ compressionSuffixes, e'.isS
   unfold formatFromChars
   rw [h2]
   have hq := isSuffixOf_append_self ".fastq".toList n
-  have hnot : ∀ (e : List Char), e ∈ [".fasta".toList, ".fa".toList, ".fna".toList] → e.isSuffixOf (n ++ ".fastq".toList) = false := by
+  have hnot : ∀ (e : List Char), e ∈ [".fasta".toList, ".fa".toList, ".fna".toList, ".csfasta".toList, ".csfa".toList] →
+      e.isSuffixOf (n ++ ".fastq".toList) = false := by
     intro e hmem
     cases hh : e.isSuffixOf (n ++ ".fastq".toList) with
     | false => rfl
@@ -117,20 +118,25 @@ theorem fastq_names (n : List Char) (hn : ∀ e' ∈ compressionSuffixes, e'.isS
       exfalso
       have s1 : e <:+ n ++ ".fastq".toList := List.isSuffixOf_iff_suffix.mp hh
       have s2 : ".fastq".toList <:+ n ++ ".fastq".toList := List.suffix_append _ _
-      have hl : e.length ≤ ".fastq".toList.length := by
-        simp only [List.mem_cons, List.mem_nil_iff, or_false] at hmem
-        rcases hmem with rfl | rfl | rfl <;> decide
-      have := List.isSuffixOf_iff_suffix.mpr (List.suffix_of_suffix_length_le s1 s2 hl)
+      have hc : e <:+ ".fastq".toList ∨ ".fastq".toList <:+ e := by
+        by_cases hl : e.length ≤ ".fastq".toList.length
+        · exact Or.inl (List.suffix_of_suffix_length_le s1 s2 hl)
+        · exact Or.inr (List.suffix_of_suffix_length_le s2 s1 (by omega))
       simp only [List.mem_cons, List.mem_nil_iff, or_false] at hmem
-      rcases hmem with rfl | rfl | rfl <;> exact absurd this (by decide)
+      rcases hmem with rfl | rfl | rfl | rfl | rfl <;>
+        (rcases hc with hc | hc <;> exact absurd (List.isSuffixOf_iff_suffix.mpr hc) (by decide))
   have n1 := hnot ".fasta".toList (by simp)
   have n2 := hnot ".fa".toList (by simp)
   have n3 := hnot ".fna".toList (by simp)
+  have n4 := hnot ".csfasta".toList (by simp)
+  have n5 := hnot ".csfa".toList (by simp)
   show (if (".fasta".toList.isSuffixOf (n ++ ".fastq".toList) || ".fa".toList.isSuffixOf (n ++ ".fastq".toList) ||
-      ".fna".toList.isSuffixOf (n ++ ".fastq".toList)) = true then some Fmt.fasta
-    else if (".fastq".toList.isSuffixOf (n ++ ".fastq".toList) || ".fq".toList.isSuffixOf (n ++ ".fastq".toList)) = true
+      ".fna".toList.isSuffixOf (n ++ ".fastq".toList) || ".csfasta".toList.isSuffixOf (n ++ ".fastq".toList) ||
+      ".csfa".toList.isSuffixOf (n ++ ".fastq".toList)) = true then some Fmt.fasta
+    else if (".fastq".toList.isSuffixOf (n ++ ".fastq".toList) || ".fq".toList.isSuffixOf (n ++ ".fastq".toList) ||
+      "_sequence.txt".toList.isSuffixOf (n ++ ".fastq".toList)) = true
       then some Fmt.fastq else none) = some Fmt.fastq
-  rw [n1, n2, n3, hq]
+  rw [n1, n2, n3, n4, n5, hq]
   rfl
 
 /-! ## Interleaving -/
